@@ -30,25 +30,32 @@ Theorem C17_exact :
   forall offered x v, select_version offered (fun w => same w x) = Some v -> same v x = true.
 Proof. exact select_version_exact. Qed.
 
-(* If some offered version above 0.0.0 is allowed, a version is selected (no spurious error). *)
-Theorem C17_complete_above_zero :
+(* If some offered version is allowed, a version is selected (no spurious
+   error) - version 0.0.0 and its pre-releases included, since the repair of
+   KF-C17-1: go-versions' NewestInSet answers 0.0.0 both for "none" and for the
+   version, so the builder now does the same scan itself with "none yet" kept
+   apart (newestAllowedVersion). *)
+Theorem C17_complete :
   forall offered allowed w,
-    In w offered -> allowed w = true -> vlt unspecified w = true ->
+    In w offered -> allowed w = true ->
     exists v, select_version offered allowed = Some v.
 Proof. exact select_version_complete. Qed.
 
-(* The full statement "if any offered version is allowed, one is selected" is
-   FALSE of the faithful model (and of the code): go-versions uses 0.0.0 both
-   as a version and as "none". *)
-Definition C17_complete_statement : Prop :=
-  forall offered allowed w, In w offered -> allowed w = true ->
-    exists v, select_version offered allowed = Some v.
+(* ... and an error ("no available version matches") is reported only when no
+   offered version is allowed *)
+Theorem C17_error_only_if_none_allowed :
+  forall offered allowed,
+    select_version offered allowed = None -> forall w, In w offered -> allowed w = false.
+Proof. exact select_version_none. Qed.
 
-Theorem C17_complete_refuted : ~ C17_complete_statement.
-Proof.
-  intros H. destruct (H [unspecified] (fun _ => true) unspecified) as [v Hv];
-    [now left|reflexivity|]. vm_compute in Hv. discriminate.
-Qed.
+(* the witness of the former finding: 0.0.0 as the only offered version *)
+Example C17_zero_is_selected :
+  select_version [unspecified] (fun _ => true) = Some unspecified /\
+  select_version [mkV 0 0 0 (s2l "rc.1") []; unspecified] (fun v => negb (version_eqb v unspecified))
+    = Some (mkV 0 0 0 (s2l "rc.1") []) /\
+  (* what go-versions' own method answers for the first one *)
+  newest_in_set' [unspecified] (fun _ => true) = unspecified.
+Proof. vm_compute. repeat split. Qed.
 
 (* precedence is a strict weak order whose equivalence is Version.Same *)
 Theorem C17_precedence_order :
@@ -114,8 +121,8 @@ Print Assumptions C17_selected_is_newest_allowed.
 Print Assumptions C17_listing_order_irrelevant.
 Print Assumptions C17_listing_order_irrelevant_some.
 Print Assumptions C17_exact.
-Print Assumptions C17_complete_above_zero.
-Print Assumptions C17_complete_refuted.
+Print Assumptions C17_complete.
+Print Assumptions C17_error_only_if_none_allowed.
 Print Assumptions C17_precedence_order.
 Print Assumptions C17_builder_selects_like_the_world.
 Print Assumptions C17_world_selection_is_newest_allowed.
